@@ -1,6 +1,6 @@
 import CookModel.Lemmas.GroupConserve
 import CookModel.Lemmas.GroupAudit
-import CookModel.Lemmas.ParsedScaled
+import CookModel.Lemmas.ParsedScaledRefs
 import CookModel.Props.C09
 /-
   C10  Grouping and listing ingredients conserves quantities.
